@@ -1,0 +1,26 @@
+//go:build verif
+
+package base
+
+// Contracts for property C12 (helpers in package base). Comment-only; read by /verif/engine.
+
+//@ props C12
+
+// sessionPrefix + sessionID: usable in specifications as mk.SessionKey(id).
+//@ func MetadataKeys.SessionKey
+//@   pure
+
+// TRUSTED: see userDocKey in /verif/trusted/c12_auth.spec (prefixes are immutable; the name is hashed deterministically when too long).
+//@ func MetadataKeys.UserKey
+//@   trusted
+//@   inert
+//@   ensures result == userDocKey(m, username)
+
+// TRUSTED: 160 random bits from crypto/rand, hex encoded; no effect on the heap.
+//@ func GenerateRandomSecret
+//@   trusted
+//@   inert
+
+// writes only the Path of the cookie it is given
+//@ func AddDbPathToCookie
+//@   modifies cookie.Path
